@@ -306,6 +306,37 @@ pub fn run(tier: Tier) -> ! {
                 cases.push((format!("{k}-character-tag"), vec!['a', 'b'], vec![1], vec![vec![Some(tag.clone())], vec![None, Some(tag)]]));
             }
         }
+        // a character that must be escaped at EVERY byte offset around the block sizes (64, 128, 256, 512, 1 KiB;
+        // thorough also 4 KiB, 8 KiB, 64 KiB) inside one surface and inside one tag, after 1-byte and after
+        // 3-byte filler (a writer that escapes through a fixed-size scratch buffer meets the special character
+        // at every fill level)
+        {
+            let mut offs: Vec<usize> = (0..=3).collect();
+            for b in tier.pick(vec![64usize, 128, 256, 512, 1024], vec![64, 128, 256, 512, 1024, 4096, 8192, 65536]) {
+                offs.extend(b - 6..=b + 6);
+            }
+            for &f in &offs {
+                for sp in [' ', '/', '\\'] {
+                    for filler3 in [false, true] {
+                        let mut body: Vec<char> = if filler3 { std::iter::repeat('あ').take(f / 3).chain(std::iter::repeat('a').take(f % 3)).collect() } else { vec!['a'; f] };
+                        body.push(sp);
+                        body.extend(['a', sp, 'あ']);
+                        let n = body.len();
+                        // as the middle token of three
+                        let mut text = vec!['x'];
+                        text.extend(body.iter());
+                        text.push('y');
+                        let mut labels = vec![0u8; n + 1];
+                        labels[0] = 1;
+                        labels[n] = 1;
+                        cases.push((format!("escape-at-byte-{f}-{:?}-filler3={}-in-surface", sp, filler3 as u8), text, labels, vec![vec![], vec![Some("t".into())], vec![]]));
+                        // as a tag
+                        let tag: String = body.iter().collect();
+                        cases.push((format!("escape-at-byte-{f}-{:?}-filler3={}-in-tag", sp, filler3 as u8), vec!['a', 'b'], vec![1], vec![vec![None, Some(tag)], vec![Some("u".into())]]));
+                    }
+                }
+            }
+        }
         chk.set("part_v_threshold_cases", json!(cases.len()));
         cases.par_iter().for_each(|(label, text, labels, tt)| {
             chk.eval(1);
